@@ -27,7 +27,8 @@ type shardReq struct {
 	Bound    int     `json:"bound"`
 	Trace    bool    `json:"trace"`
 	MaxViol  int     `json:"max_viol"`
-	Single   bool    `json:"single"` // run only the execution of Prefix and return its children
+	Single   bool    `json:"single"`    // run only the execution of Prefix and return its children
+	MaxExecs int64   `json:"max_execs"` // hand the unexplored rest back (as Kids) after this many executions; 0 = no cap
 }
 
 type shardResp struct {
@@ -49,6 +50,9 @@ type WorkerSpec struct {
 	Procs    int      // number of worker processes
 	Env      []string // extra environment
 	Frontier int      // open subtrees wanted before handing out (default 8*Procs)
+	// Chunk: a worker hands the unexplored rest of a subtree back after this many executions, so
+	// that big subtrees are spread over all workers (default 400).
+	Chunk int64
 	// RemoteFrontier: the coordinator never runs the body itself (bodies that need a synctest
 	// bubble); the top of the tree is expanded through a worker, one execution per request.
 	RemoteFrontier bool
@@ -137,6 +141,12 @@ func subtree(name string, cfg Config, param any, body func(*Ctx), req shardReq, 
 		}
 		if req.Deadline > 0 && resp.Execs%16 == 0 && Wall() > req.Deadline {
 			resp.TimedOut = true
+			break
+		}
+		if req.MaxExecs > 0 && resp.Execs >= req.MaxExecs && len(stack) > 0 {
+			for _, it := range stack {
+				resp.Kids = append(resp.Kids, it.prefix)
+			}
 			break
 		}
 	}
@@ -280,6 +290,9 @@ func ExploreSharded(name string, cfg Config, spec WorkerSpec, param any, body fu
 	if spec.Frontier <= 0 {
 		spec.Frontier = 8 * spec.Procs
 	}
+	if spec.Chunk <= 0 {
+		spec.Chunk = 400
+	}
 	start := Wall()
 	res := &Result{Name: name, Notes: map[string]int64{}, Bound: cfg.Bound}
 	outs, nontr := map[uint64]struct{}{}, map[uint64]struct{}{}
@@ -401,14 +414,11 @@ func ExploreSharded(name string, cfg Config, spec WorkerSpec, param any, body fu
 	}
 
 	if len(queue) > 0 && len(res.Violations) < cfg.MaxViolations {
-		work := make(chan item, len(queue))
-		for _, it := range queue {
-			work <- it
-		}
-		close(work)
 		var mu sync.Mutex
-		var wg sync.WaitGroup
+		cond := sync.NewCond(&mu)
+		busy := 0
 		stop := false
+		var wg sync.WaitGroup
 		for p := 0; p < spec.Procs; p++ {
 			wg.Add(1)
 			go func() {
@@ -419,17 +429,29 @@ func ExploreSharded(name string, cfg Config, spec WorkerSpec, param any, body fu
 						w.kill()
 					}
 				}()
-				for it := range work {
+				for {
 					mu.Lock()
-					s := stop
-					mu.Unlock()
-					if s || (cfg.Deadline > 0 && Wall() > cfg.Deadline) {
-						mu.Lock()
-						timedOut = timedOut || !s
-						mu.Unlock()
-						continue
+					for len(queue) == 0 && busy > 0 && !stop {
+						cond.Wait()
 					}
-					req := shardReq{Prefix: it.prefix, Deadline: cfg.Deadline, Bound: cfg.Bound, MaxViol: cfg.MaxViolations}
+					if stop || len(queue) == 0 {
+						mu.Unlock()
+						cond.Broadcast()
+						return
+					}
+					if cfg.Deadline > 0 && Wall() > cfg.Deadline {
+						timedOut = true
+						stop = true
+						mu.Unlock()
+						cond.Broadcast()
+						return
+					}
+					it := queue[len(queue)-1]
+					queue = queue[:len(queue)-1]
+					busy++
+					mu.Unlock()
+
+					req := shardReq{Prefix: it.prefix, Deadline: cfg.Deadline, Bound: cfg.Bound, MaxViol: cfg.MaxViolations, MaxExecs: spec.Chunk}
 					var resp *shardResp
 					var errText string
 					var last []int
@@ -460,19 +482,25 @@ func ExploreSharded(name string, cfg Config, spec WorkerSpec, param any, body fu
 						w = nil
 					}
 					mu.Lock()
+					busy--
 					if resp != nil {
 						merge(resp)
+						for _, kid := range resp.Kids {
+							queue = append(queue, item{prefix: kid})
+						}
 					} else if last != nil {
 						// the process died while running the execution that starts with `last`
 						res.Violations = append(res.Violations, &Violation{Part: name, Choices: last, Ops: []string{"(execution took the process down; replay to see its operations)"},
 							Msg: "process died during this execution: " + errText, Sig: "process-died: " + firstLine(lastPanicLine(errText))})
 					} else {
 						internal = append(internal, errText)
+						stop = true
 					}
 					if len(res.Violations) >= cfg.MaxViolations {
 						stop = true
 					}
 					mu.Unlock()
+					cond.Broadcast()
 				}
 			}()
 		}
